@@ -258,6 +258,11 @@ func (grid *RegularGrid) GetRegion(min Vector3f, max Vector3f) []*Quad {
 	min = Vector3f{(float32)(math.Max((float64)(min.x), (float64)(grid.Min.x))), 0, (float32)(math.Max((float64)(min.z), (float64)(grid.Min.z)))}
 	max = Vector3f{(float32)(math.Min((float64)(max.x), (float64)(grid.Max.x))), 0, (float32)(math.Min((float64)(max.z), (float64)(grid.Max.z)))}
 
+	if max.x < min.x || max.z < min.z {
+		// the region is empty or lies outside the grid
+		return []*Quad{}
+	}
+
 	minXGridCoord := (uint)(math.Floor((float64)(min.x-grid.Min.x) / (float64)(grid.Resolution)))
 	minYGridCoord := (uint)(math.Floor((float64)(min.z-grid.Min.z) / (float64)(grid.Resolution)))
 	maxXGridCoord := (uint)(math.Floor((float64)(max.x-grid.Min.x) / (float64)(grid.Resolution)))
